@@ -28,6 +28,7 @@ type c14Case struct {
 	Broken  string   `json:"broken"` // "" | missing-executable | empty-argv | not-executable | directory
 	RelCmd  bool     `json:"rel_cmd"` // the command is named relative to the run directory (./emit-local)
 	Linger  int      `json:"linger"`  // >0: the command leaves a background process holding the streams for that many ms
+	Norm    bool     `json:"norm,omitempty"` // InTotoRun with line normalisation of ARTIFACTS switched on
 }
 
 var c14Sizes = []int{0, 1, 61, 122, 6100, 67100, 4095, 4096, 65535, 65536, 65537, 70000, 131072, 200000, 1 << 20, 4 << 20}
@@ -42,7 +43,7 @@ func c14Gen(t *rapid.T) c14Case {
 	n := rapid.IntRange(0, 5).Draw(t, "nops")
 	budget := 9 << 20
 	for i := 0; i < n; i++ {
-		kind := rapid.SampledFrom([]string{"o", "e", "o", "e", "O", "E", "co", "ce", "sleep"}).Draw(t, "op")
+		kind := rapid.SampledFrom([]string{"o", "e", "o", "e", "O", "E", "co", "ce", "sleep", "or", "er", "po", "pe"}).Draw(t, "op")
 		switch kind {
 		case "co", "ce":
 			c.Ops = append(c.Ops, kind)
@@ -63,6 +64,7 @@ func c14Gen(t *rapid.T) c14Case {
 		}
 	}
 	c.RelCmd = c.WorkDir != "" && rapid.Bool().Draw(t, "relcmd")
+	c.Norm = c.Via == "intotorun" && rapid.Bool().Draw(t, "norm")
 	if rapid.IntRange(0, 14).Draw(t, "linger") == 0 {
 		c.Linger = rapid.SampledFrom([]int{700, 900}).Draw(t, "lingerms")
 	}
@@ -83,20 +85,39 @@ func c14Expect(c c14Case) (stdout, stderr []byte, exit int, signalled bool, writ
 	for _, op := range c.Ops {
 		parts := strings.SplitN(op, ":", 2)
 		switch parts[0] {
-		case "o", "O":
+		case "o", "O", "or":
 			n, _ := strconv.Atoi(parts[1])
 			if !outOpen {
 				writesAfterClose = writesAfterClose || n > 0
 				continue
 			}
-			stdout = append(stdout, hx.EmitPattern(n, parts[0] == "O")...)
-		case "e", "E":
+			if parts[0] == "or" {
+				stdout = append(stdout, hx.EmitPatternCR(n)...)
+			} else {
+				stdout = append(stdout, hx.EmitPattern(n, parts[0] == "O")...)
+			}
+		case "e", "E", "er":
 			n, _ := strconv.Atoi(parts[1])
 			if !errOpen {
 				writesAfterClose = writesAfterClose || n > 0
 				continue
 			}
-			stderr = append(stderr, hx.EmitPattern(n, parts[0] == "E")...)
+			if parts[0] == "er" {
+				stderr = append(stderr, hx.EmitPatternCR(n)...)
+			} else {
+				stderr = append(stderr, hx.EmitPattern(n, parts[0] == "E")...)
+			}
+		case "po":
+			// the stream opened again by path: the same pipe, so the bytes follow what was written before
+			n, _ := strconv.Atoi(parts[1])
+			if outOpen {
+				stdout = append(stdout, hx.EmitPattern(n, true)...)
+			}
+		case "pe":
+			n, _ := strconv.Atoi(parts[1])
+			if errOpen {
+				stderr = append(stderr, hx.EmitPattern(n, true)...)
+			}
 		case "co":
 			outOpen = false
 		case "ce":
@@ -168,7 +189,7 @@ func c14Run(c c14Case, r *hx.Rec) error {
 	if c.WorkDir != "" {
 		runDir = filepath.Join(dir, c.WorkDir)
 	}
-	req := map[string]any{"mode": c.Via, "args": args, "run_dir": runDir, "dsse": c.DSSE}
+	req := map[string]any{"mode": c.Via, "args": args, "run_dir": runDir, "dsse": c.DSSE, "norm": c.Norm}
 	rb, _ := json.Marshal(req)
 	reqPath, respPath := filepath.Join(dir, "req.json"), filepath.Join(dir, "resp.json")
 	_ = os.WriteFile(reqPath, rb, 0o644)
@@ -203,7 +224,7 @@ func c14Run(c c14Case, r *hx.Rec) error {
 	if c.RelCmd {
 		r.Label("relative-command")
 	}
-	r.Key("%v|%s|%s|%s|%v|%s|%v|%d", c.Ops, c.End, c.Via, c.WorkDir, c.DSSE, c.Broken, c.RelCmd, c.Linger)
+	r.Key("%v|%s|%s|%s|%v|%s|%v|%d|%v", c.Ops, c.End, c.Via, c.WorkDir, c.DSSE, c.Broken, c.RelCmd, c.Linger, c.Norm)
 
 	deadline := 30 * time.Second
 	res := hx.Supervise([]string{"run", reqPath, respPath}, dir, deadline)
